@@ -67,9 +67,9 @@ TABLE = {
     ),
     "C10": _e(
         "exploration",
-        "DESIGN.md §1 C10",
-        "runtime monitoring: FRAME (identity snapshot of every field, id, content_id, hash of every pre-existing node) around every public operation of generated histories, sys.monitoring write watcher on object.__setattr__/__delattr__, icontract frame contracts over the repository's own tests",
-        "Histories over all public operations (traversal, Tree, xpath, pattern, visit/transform incl. raising, duplicate, replace ok/failing, detach, all serialization formats, ==, hash, rich) with a before/after identity snapshot of every field of every reachable pre-existing node; direct setattr/delattr on every field of every class must raise; a sys.monitoring CALL watcher records every object.__setattr__ on a pre-existing node; the repo's own 244 tests run under frame contracts.",
+        "DESIGN.md §1 C10, §6.7",
+        "runtime monitoring: FRAME (snapshot of every field value, id, content_id, hash of every pre-existing node) around every public operation of generated histories incl. raising ones; sys.monitoring CALL watcher on object.__setattr__/__delattr__ as supporting observation; icontract frame contracts over the repository's own tests",
+        "Histories over all public operations (traversal, Tree, xpath, pattern, visit/transform incl. raising / unwrapping / rebuilding rules, duplicate, replace ok/failing, detach, all serialization formats with originals alive / detached / dropped, ==, hash, rich) with a before/after snapshot of every field of every reachable pre-existing node (scalars by type+value, nodes by identity); direct setattr/delattr on every field of every class must raise; the writer locations the sys.monitoring watcher sees on pre-existing nodes are reported in the evidence (a write that changes nothing is not a violation); the repo's own 244 tests run under icontract frame contracts.",
     ),
     "C11": _e(
         "exploration",
@@ -105,7 +105,7 @@ TABLE = {
         "fault_enumeration",
         "DESIGN.md §1 C16",
         "runtime monitoring with fault injection: option-slot invariant + default-output probe after every call of generated call histories; sys.monitoring LINE failpoints enumerated over every statement of the nested (de)serializers; recursive shape walker of every nested mapping",
-        "Histories of as_dict/as_obj/to_*/from_* calls with every option subset; after each call (returned or raised) the two process-global slots must be empty and an option-less probe serialization must equal the baseline; faults are enumerated: a raising property at each tree position, payload corruption at each nested mapping, and an injected exception at the k-th statement executed inside the callees for every k; outputs are walked mapping by mapping for the tag / sort / skip / explorer / index-source rules.",
+        "Histories of as_dict/as_obj/to_*/from_* calls with every option subset; after each call (returned or raised) the two process-global slots must be empty and an option-less probe serialization must equal the baseline; faults are enumerated: a raising property at each tree position, payload corruption at each nested mapping, and an injected exception at the k-th statement executed inside the callees for every k; outputs are walked mapping by mapping for the tag / sort / skip / explorer / index-source rules; one options object is re-used across calls; the repository's own tests run under a slot contract on as_dict/as_obj.",
     ),
     "C17": _e(
         "exploration",
